@@ -50,6 +50,7 @@ Definition expected_translated : list string := [
   "IndividualBOSS.predict_proba";
   "ContractableBOSS.predict";
   "ContractableBOSS.predict_proba";
+  "TemporalDictionaryEnsemble.predict";
   "TemporalDictionaryEnsemble.predict_proba";
   "IndividualTDE.predict";
   "IndividualTDE.predict_proba";
